@@ -211,10 +211,15 @@ class FileSystemLoader(BaseLoader):
                 f"{template!r} not found in search {plural}: {paths_str}",
             )
 
+        # Record the mtime before reading. If the file is replaced while
+        # it is being read, the older mtime makes the next up-to-date
+        # check fail and the template is reloaded. Taking it after the
+        # read could pair old contents with the new mtime, and the stale
+        # template would then be served until the file changes again.
+        mtime = os.path.getmtime(filename)
+
         with open(filename, encoding=self.encoding) as f:
             contents = f.read()
-
-        mtime = os.path.getmtime(filename)
 
         def uptodate() -> bool:
             try:
